@@ -39,6 +39,7 @@ import random as _random
 from .. import core as _core, attach as _attach, drivers as _drivers
 from ..workloads import graphs as _graphs
 from .base import ShardAcc as _ShardAcc
+from . import opfaults as _opf
 
 _plan0 = CHECK.plan
 _run0 = CHECK.run_shard
@@ -51,6 +52,7 @@ def _plan(tier, seed):
     for start in range(0, total, per):
         shards.append({"kind": "predeclared", "seed": seed, "start": start, "count": per,
                        "tier": tier})
+    shards += _opf.plan(tier, seed)
     return shards
 
 
@@ -111,9 +113,35 @@ def _run_predeclared(spec):
     return acc.result()
 
 
+def _render_victim(scfg):
+    from numba_scfg.rendering.rendering import SCFGRenderer
+
+    return lambda: SCFGRenderer(scfg).render_scfg()
+
+
+def _render_natural(scfg):
+    """rendering a region's sub-graph on its own: refused (KeyError) when an
+    arc leaves the rendered part"""
+    from numba_scfg.rendering.rendering import SCFGRenderer
+    from ..hier import levels
+
+    return [(lambda sc=sc: SCFGRenderer(sc).render_scfg()) for reg, sc in levels(scfg)
+            if reg is not None]
+
+
+def _render_oracle(scfg):
+    from ..oracles.dot import check_render
+
+    return check_render(scfg)
+
+
 def _run_shard(spec):
     if spec["kind"] == "predeclared":
         return _run_predeclared(spec)
+    if spec["kind"] == "opfaults" or (spec["kind"] == "single"
+                                      and spec["case"].get("kind") == "opfault"):
+        return _opf.run_shard(spec, "C17", CHECK.profile, _render_victim, _render_oracle,
+                              _render_natural)
     return _run0(spec)
 
 
